@@ -46,6 +46,31 @@ def plan(tier, seed, per_shard_quick, per_shard_thorough, extra=None):
     return specs
 
 
+def resolve_after_edit(case, cfg, rng):
+    """Edit the solved model so that its optimum moves (bound the first metric below the value found) and solve the
+    same object again.  Returns (record, outcome) of the second solve, or None when it is not decidable."""
+    import contextlib
+    import io
+    from pv.monitors import is_optimal_status
+    pep = case.machine.pep
+    ret = case.outcome[1]
+    if not pep.list_of_performance_metrics:
+        return None
+    met = pep.list_of_performance_metrics[0]
+    pep.add_constraint(met <= (0.5 * ret if ret > 1e-6 else ret - 0.5))
+    bd = driver.boundary()
+    n0 = len(bd.records)
+    with contextlib.redirect_stdout(io.StringIO()):
+        out = case.machine.do_solve(driver.solve_kwargs(cfg))
+    if len(bd.records) <= n0:
+        return None
+    rec = bd.records[n0]
+    sts = [str(x["status"]).lower() for x in rec["inner"]]
+    if out[0] == "ok" and out[1] is not None and sts and all(is_optimal_status(s) for s in sts):
+        return rec, out
+    return None
+
+
 class Acc(object):
     def __init__(self):
         self.counters = {}
